@@ -10,7 +10,8 @@ EXPLANATION = ("LADDER (NECESSARY + result enums) on CheckMerkleRoot and CheckWi
                "BlockMerkleRoot(block,&mutated)', 'mutated', bad nonce size, commitment mismatch and (when no commitment applies) any transaction with "
                "witness; every rejection there carries BLOCK_MUTATED; the memoisation flags are set only behind the checks and are written by nobody else. "
                "MPT on InvalidBlockFound: BLOCK_FAILED_VALID / candidate-set erase / InvalidChainFound only if result != BLOCK_MUTATED; who-may-write "
-               "BLOCK_FAILED_VALID over the whole program. MPT on CheckBlock (accept and every transaction-content rejection lie behind CheckMerkleRoot), "
+               "BLOCK_FAILED_VALID and who-may-call InvalidBlockFound over the whole program; ProcessNewBlock reaches AcceptBlock only past CheckBlock's true edge and its "
+               "false edge reaches no failure-marking function (call-graph region). MPT on CheckBlock (accept and every transaction-content rejection lie behind CheckMerkleRoot), "
                "ContextualCheckBlock (weight rung and accept lie behind CheckWitnessMalleation(block, segwit-active-after-prev)), the peer BLOCK handler "
                "(ProcessBlock only for blocks that are not IsBlockMutated; the mutated edge punishes and returns) and compact-block FillBlock. "
                "Structure of ComputeMerkleRoot (equal-pair scan with stride 2 before the odd-level duplication, result stored through *mutated), "
@@ -25,7 +26,8 @@ CLAIM = dict(
          "function writes BLOCK_FAILED_VALID outside the four listed ones; the P2P and compact-block paths drop mutated blocks before validation; the CVE-2012-2459 "
          "scan in ComputeMerkleRoot has the required shape and order.",
     note="Not decided: numeric agreement of merkle roots/paths with a reference (TransactionMerklePath is not analysed); the BLOCK_MUTATED handling inside "
-         "ActivateBestChainStep (degraded function). CheckBlock's signet rung (bad-signet-blksig, BLOCK_CONSENSUS) precedes the merkle rung in the code; it is "
+         "ActivateBestChainStep (degraded function). Who-may-call InvalidBlockFound and the ProcessNewBlock CheckBlock-false edge are decided (a block failing the "
+         "context-free check is never marked). CheckBlock's signet rung (bad-signet-blksig, BLOCK_CONSENSUS) precedes the merkle rung in the code; it is "
          "exempted from the 'merkle first' obligation and reported in the evidence notes (CheckBlock failures are not marked because ProcessNewBlock runs CheckBlock "
          "before AcceptBlock).",
     ref="DESIGN.md §3 C04")
@@ -42,6 +44,7 @@ def check(ctx):
     witness_ladder(ctx, P)
     commitment_index(ctx, P)
     invalid_block_found(ctx, P)
+    process_new_block(ctx, P)
     check_block(ctx, P)
     contextual(ctx, P)
     compute_merkle_root(ctx, P)
@@ -234,6 +237,86 @@ def invalid_block_found(ctx, P):
     ok = set(found) <= FAILED_WRITERS and "Chainstate::InvalidBlockFound" in found
     ctx.ob("who-writes/BLOCK_FAILED_VALID", "WHO-MAY-WRITE", "BLOCK_FAILED_VALID is set in CBlockIndex::nStatus only by %s" % sorted(FAILED_WRITERS), ok, None,
            {"writers": {k: v for k, v in sorted(found.items())}})
+
+
+def failure_targets(ctx, P, cg):
+    """Functions that mark a block index entry failed: InvalidBlockFound / InvalidChainFound and every writer of BLOCK_FAILED_VALID."""
+    t = {"Chainstate::InvalidBlockFound", "Chainstate::InvalidChainFound"} | set(FAILED_WRITERS)
+    for q, file, lines in cg.writers("CBlockIndex::nStatus"):
+        for fn in _fns_anywhere(ctx, P, q, file):
+            if sites(fn, lambda e: e[0] == "b" and e[1] in ("=", "|=", "^=", "+=") and match([".", ANY, "CBlockIndex::nStatus"], e[2])
+                     and contains(["enum", "BLOCK_FAILED_VALID"], e[3]) and not _only_masked(e[3]), P):
+                t.add(q)
+    return t
+
+
+def process_new_block(ctx, P):
+    """A block whose context-free check fails is never marked: who may call InvalidBlockFound, and in ProcessNewBlock AcceptBlock (the only
+    marking path for received blocks) lies behind the true edge of CheckBlock while nothing on the false edge reaches a failure-marking function."""
+    cg = callgraph.load_all()
+    callers = sorted({c[0] for c in cg.call_sites("Chainstate::InvalidBlockFound")})
+    ok = set(callers) <= {"ChainstateManager::AcceptBlock", "Chainstate::ConnectTip"} and "ChainstateManager::AcceptBlock" in callers
+    ctx.ob("who-calls/InvalidBlockFound", "WHO-MAY-CALL", "Chainstate::InvalidBlockFound is called only from ChainstateManager::AcceptBlock (after CheckBlock and ContextualCheckBlock) and "
+           "Chainstate::ConnectTip (after ConnectBlock)", ok, None, {"callers": callers})
+    f = ctx.used(P.fn("ChainstateManager::ProcessNewBlock"))
+    subst = naming(f, P)
+    acc = sites(f, call_to("ChainstateManager::AcceptBlock"), P)
+    cbs = [st for st in stmts(f.body) if st.get("k") == "decl" and is_call_to("CheckBlock", st.get("i"))]
+    if len(acc) != 1 or len(cbs) != 1:
+        raise AnalysisBroken("ProcessNewBlock: expected `bool r = CheckBlock(..)` and exactly one AcceptBlock call (idiom changed)")
+    d, a = cbs[0], acc[0]
+    r = d["n"]
+    args = call_args(d["i"])
+    okargs = len(args) >= 3 and show(args[0]) in ("*block", "block") and match(["local", ANY], args[1]) and \
+        all(match(["defarg", ["bool", True]], x) or match(["bool", True], x) for x in args[3:])
+    aargs = call_args(a.expr)
+    okargs = okargs and len(aargs) >= 2 and F.key(aargs[1]) == F.key(args[1]) and contains(["param", "block"], aargs[0])
+    ctx.ob("ProcessNewBlock/CheckBlock-args", "PROVENANCE", "ProcessNewBlock runs the full CheckBlock (PoW and merkle root) on the received block with the state later given to AcceptBlock",
+           okargs, "%s:%s" % (f.file, d.get("l")), {"args": [show(x) for x in args]})
+    # the test that guards AcceptBlock reads the CheckBlock result: every other write to the flag happens inside the guarded branch
+    gs = [g for g in a.guards if g.kind == "if" and g.pol and is_expr(g.expr) and match(["local", r], g.expr)]
+    guard_if = None
+    if gs:
+        ifs = [st for st in stmts(f.body) if st.get("k") == "if" and st.get("c") is gs[0].expr]
+        guard_if = ifs[0] if len(ifs) == 1 else None
+    inside = lambda line: guard_if is not None and isinstance(guard_if.get("t"), dict) and guard_if["t"].get("l", 0) <= (line or 0) <= max_line(guard_if["t"])
+    ws = writes_to_local(f, r)
+    okg = guard_if is not None and not a.loops and all(inside(w[0]) for w in ws) and (d.get("l") or 0) < (guard_if.get("l") or 0)
+    ctx.ob("ProcessNewBlock/AcceptBlock-behind-CheckBlock", "MPT", "AcceptBlock is reached only past the true edge of CheckBlock(*block, state, ..): it sits in `if (<CheckBlock result>)` "
+           "and the result flag is not rewritten before that test", okg, a.where, {"flag": r, "writes": [(w[0], w[1]) for w in ws]})
+    if guard_if is None:
+        return
+    # the enclosing block: everything but the guarded branch is (conservatively) the CheckBlock-false edge
+    blocks = [st for st in stmts(f.body) if st.get("k") == "seq" and any(x is d for x in st.get("s", []))]
+    if len(blocks) != 1:
+        raise AnalysisBroken("ProcessNewBlock: block enclosing the CheckBlock call not found")
+    blk = blocks[0]
+    after = blk["s"][[i for i, x in enumerate(blk["s"]) if x is d][0] + 1:]
+    region = []
+    for st in after:
+        if st is guard_if:
+            if st.get("e") is not None:
+                region.append(st["e"])
+        else:
+            region.append(st)
+    calls = callgraph.region_calls(region)
+    starts = set(calls)
+    for c, ls in calls.items():
+        if any(v for _, v in ls):
+            starts |= cg.overriders.get(c, set())
+    seen = cg.reach(starts)
+    targets = failure_targets(ctx, P, cg)
+    hit = sorted(t for t in targets if t in seen)
+    direct = [st.get("l") for x in region for st, e in all_exprs(x) for y in subexprs(e) if y[0] == "b" and y[1] in ASSIGN_OPS and match([".", ANY, "CBlockIndex::nStatus"], y[2])]
+    ctx.ob("ProcessNewBlock/false-edge-marks-nothing", "CALLGRAPH", "on the CheckBlock-false edge of ProcessNewBlock no call path reaches InvalidBlockFound, InvalidChainFound or any function "
+           "that sets BLOCK_FAILED_VALID, and nStatus is not written (a block failing the context-free check - e.g. a malleated variant - is never marked)", not hit and not direct,
+           "%s:%s" % (f.file, guard_if.get("l")), {"reached": hit, "path": cg.path(seen, hit[0]) if hit else None, "region_calls": sorted(calls)[:40], "direct_nStatus_writes": direct})
+    # nothing behind the block runs on the false edge: the block is left (return) unless the flag is true
+    from sa.engine.paths import post_formula
+    post = post_formula(blk, subst)
+    okp = F.implies(post, F.atom(r))
+    ctx.ob("ProcessNewBlock/false-edge-returns", "MPT", "ProcessNewBlock continues past the locked block (ActivateBestChain) only if the CheckBlock/AcceptBlock flag is true", okp,
+           "%s:%s" % (f.file, blk.get("l")), None if okp else {"post": F.fshow(post)[:600]})
 
 
 def _only_masked(rhs):
